@@ -151,6 +151,10 @@ func (r *armoredReader) Read(p []byte) (int, error) {
 	if len(line) > format.ColumnsPerLine {
 		return 0, r.setErr(errors.New("column limit exceeded"))
 	}
+	if len(line) == 0 {
+		// The encoder never emits an empty body line.
+		return 0, r.setErr(errors.New("empty line in armor body"))
+	}
 	r.unread = r.buf[:]
 	n, err := base64.StdEncoding.Strict().Decode(r.unread, line)
 	if err != nil {
